@@ -18,6 +18,16 @@ var tzPool = []string{"America/New_York", "Europe/London", "Asia/Kolkata", "UTC"
 var textPool = []string{"Main St", "A, B", `say "hi"`, "Zürich HB", "line1\nline2", " padded ", "", "x", "東京", "a;b", "'q'"}
 
 func decimalString(r *Rng) string {
+	if r.P(1, 6) {
+		// 15 to 19 significant digits in plain notation, as a %.17g dump of a coordinate writes them: beyond what a
+		// 53-bit significand holds, so that a conversion in two rounding steps shows
+		n := 13 + r.Intn(5)
+		b := make([]byte, n)
+		for i := range b {
+			b[i] = byte('0' + r.Intn(10))
+		}
+		return fmt.Sprintf("%s%d.%s", r.Pick([]string{"", "-"}), r.Intn(180), string(b))
+	}
 	switch r.Intn(8) {
 	case 0:
 		return fmt.Sprintf("-%d.%06d", r.Intn(180), r.Intn(1000000))
@@ -67,6 +77,7 @@ type feedOpts struct {
 	messy    bool // dangling references, blanks in required cells, duplicate ids, bad numbers
 	calendar bool // calendar-heavy
 	big      bool
+	edgeSeq  bool // shape points with sequence numbers at and beyond the edge of the int32 range (rows the decoder skips)
 }
 
 func genFeed(r *Rng, o feedOpts) *feed {
@@ -212,6 +223,15 @@ func genFeed(r *Rng, o feedOpts) *feed {
 		seqs := r.Perm(n + 3)[:n]
 		for _, q := range seqs {
 			sh.rows = append(sh.rows, []string{id, mess(decimalString(r), "", "x"), mess(decimalString(r), ""), mess(fmt.Sprintf("%d", q*3+1), "", "1.5"), r.Pick([]string{"", "1.5", "0"})})
+		}
+		if (o.messy || o.edgeSeq) && r.P(1, 4) {
+			// sequence numbers at and beyond the edge of the 32-bit range: 2147483647 is the largest the decoder takes,
+			// the others are unparseable values (the row is skipped); none may wrap around into the order
+			for _, big := range []string{"2147483647", "2147483648", "3000000000", "4294967295", "4294967296", "-1", "-2147483648"}[r.Intn(3):] {
+				if r.Bool() {
+					sh.rows = append(sh.rows, []string{id, decimalString(r), decimalString(r), big, ""})
+				}
+			}
 		}
 	}
 	// trips
